@@ -551,7 +551,11 @@ func (r *engRun) build(label int, mode string, fail []int, crash string, note st
 }
 
 // staleness oracle (C01): the generated files of the closure equal those of a from-scratch build of the same tree
-func (r *engRun) checkClean(label int) {
+func (r *engRun) checkClean(label int) { r.checkCleanAs(label, "") }
+
+// checkCleanAs: class is "" or the name of a class of histories whose staleness is reported apart ("[class]" in the oracle
+// text; the python driver turns it into the known-findings key of that class)
+func (r *engRun) checkCleanAs(label int, class string) {
 	tmp, err := os.MkdirTemp(filepath.Dir(r.root), "clean-")
 	if err != nil {
 		return
@@ -580,7 +584,11 @@ func (r *engRun) checkClean(label int) {
 			a, _ := os.ReadFile(filepath.Join(r.root, r.p.Paths[g]))
 			b, _ := os.ReadFile(filepath.Join(tmp, r.p.Paths[g]))
 			if string(a) != string(b) {
-				r.oracle("C01 stale: %s of %s differs from a from-scratch build", r.p.Paths[g], r.p.label(id))
+				if class != "" {
+					r.oracle("C01 stale [%s]: %s of %s differs from a from-scratch build", class, r.p.Paths[g], r.p.label(id))
+				} else {
+					r.oracle("C01 stale: %s of %s differs from a from-scratch build", r.p.Paths[g], r.p.label(id))
+				}
 			}
 		}
 	}
